@@ -395,9 +395,9 @@ Definition uses_index (st : msettings) : bool :=
   negb (fast_path st) && m_indexed st && match m_ns st with NsKeep => true | _ => false end.
 Definition join_null_eq (st : msettings) : bool := uses_index st.
 
-Inductive merr := EDup | EFail | EUnsupported | EOther.
+Inductive merr := EDup | EFail | EUnsupported | EOther | EPanic.
 Definition merr_eqb (a b : merr) : bool :=
-  match a, b with EDup, EDup | EFail, EFail | EUnsupported, EUnsupported | EOther, EOther => true | _, _ => false end.
+  match a, b with EDup, EDup | EFail, EFail | EUnsupported, EUnsupported | EOther, EOther | EPanic, EPanic => true | _, _ => false end.
 
 Record mstate := {
   s_del : list addr;                (* delete_row_addrs / deleted_rows *)
@@ -440,8 +440,18 @@ Definition step_row (st : msettings) (acc : mstate + merr) (j : jrow) : mstate +
 
 Definition run_rows (st : msettings) (jr : list jrow) : mstate + merr := fold_left (step_row st) jr (inl mstate0).
 
+(* execute_uncommitted_impl: with a partial source schema, deleting rows not matched by the source is
+   rejected (NotSupported; a DeleteIf expression over a column the source lacks already fails in
+   Merger::try_new) before the joined stream is consumed *)
 Definition supported (st : msettings) : bool :=
   full_schema st || match m_ns st with NsKeep => true | _ => false end.
+
+(* Merger::execute_batch calls unzip_batch for every batch when an UpdateIf filter is set.  unzip_batch
+   assumes an odd number of columns (source half, target half, _rowid); with a partial source schema the
+   joined batch also carries _rowaddr: debug_assert_eq!(num_fields % 2, 1) fails, and without debug
+   assertions StructArray::new gets one array too many.  The panic surfaces as a JoinError. *)
+Definition unzip_panics (st : msettings) : bool :=
+  match m_wm st with WmUpdateIf _ => negb (full_schema st) | _ => false end.
 
 Definition find_upd (a : addr) (l : list (addr * row)) : option row :=
   match find (fun x => addr_eqb a (fst x)) l with Some x => Some (snd x) | None => None end.
@@ -452,11 +462,13 @@ Record mresult := { r_rows : list row; r_stats : N * N * N }.
    re-written together with the inserted ones (RewriteRows); partial schema: the source's columns of
    the matched rows are rewritten in place, new rows get NULL in the other columns (RewriteColumns). *)
 Definition a_merge (st : msettings) (tgt : itable) (src : list row) : mresult + merr :=
+  if negb (supported st) then inr EUnsupported
+  else if unzip_panics st then inr EPanic
+  else
   match run_rows st (join_rows st (join_null_eq st) (join_kind st) tgt src) with
   | inr e => inr e
   | inl s =>
-      if negb (supported st) then inr EUnsupported
-      else if full_schema st
+      if full_schema st
       then inl {| r_rows := map snd (filter (fun it => negb (mem_addr (fst it) (s_del s))) tgt)
                             ++ map (fun u => widen st (snd u)) (s_upd s) ++ map (widen st) (s_insr s);
                   r_stats := (s_nins s, s_nupd s, s_ndel s) |}
@@ -502,11 +514,13 @@ Definition c_delete_addrs (del : list addr) (ct : ctable) : ctable :=
     else [f]) O ct.
 
 Definition c_merge (st : msettings) (ct : ctable) (src : list row) : ctable + merr :=
+  if negb (supported st) then inr EUnsupported
+  else if unzip_panics st then inr EPanic
+  else
   match run_rows st (join_rows st (join_null_eq st) (join_kind st) (arows ct) src) with
   | inr e => inr e
   | inl s =>
-      if negb (supported st) then inr EUnsupported
-      else if full_schema st
+      if full_schema st
       then inl (c_delete_addrs (s_del s) ct
                 ++ new_frag (map (fun u => widen st (snd u)) (s_upd s) ++ map (widen st) (s_insr s)))
       else inl (map_frags (fun fi f => [map_slots (fun a r => match find_upd a (s_upd s) with
@@ -584,6 +598,9 @@ Definition Known_C12_null_key_target_rows_kept (st : msettings) (tgt : list row)
 Definition Known_C12_fail_off_fast_path (st : msettings) : bool :=
   match m_wm st with WmFail => negb (fast_path st) | _ => false end.
 
+(* WhenMatched::UpdateIf with a source that has only some of the columns panics (see unzip_panics) *)
+Definition Known_C12_update_if_partial_schema_panics (st : msettings) : bool := unzip_panics st.
+
 (* well-formed settings and inputs *)
 Definition wf_settings (st : msettings) : bool :=
   nodupb (m_scols st)
@@ -645,7 +662,7 @@ Definition chk_update (i : ctable * (bexpr * (list assignment * bexpr))) (o : ob
   existsb (fun asg' => obs_eqb true (observe cf (N.of_nat (length (filter (sel p) (abs ct)))) (c_update p asg' ct)) o) (perms asg).
 
 (* merge: output = error kind, or (observation with extra = 0, (inserted, updated, deleted)) *)
-Definition merr_code (e : merr) : N := match e with EDup => 1 | EFail => 2 | EUnsupported => 3 | EOther => 4 end%N.
+Definition merr_code (e : merr) : N := match e with EDup => 1 | EFail => 2 | EUnsupported => 3 | EOther => 4 | EPanic => 5 end%N.
 Definition chk_merge (i : ctable * (list row * (msettings * bexpr))) (o : (observation * (N * N * N)) + N) : bool :=
   let '(ct, (src, (st, cf))) := i in
   match c_merge st ct src, o with
